@@ -14,7 +14,7 @@ NB == H.nbits
 C  == H.nchans
 V  == IF NB = 32 \/ H.files = <<>> THEN H.vals ELSE Values(D, NB)
 
-HdrOK == \/ H.files = <<>>                       \* value-level stream (PSRFITS): no byte model
+HdrOK == \/ H.files = <<>>                       \* value-level stream (PSRFITS) or skeleton trace: no byte model
          \/ /\ H.N = NSamples(D, C, NB)
             /\ (NB = 32 \/ H.vals = Values(D, NB))
 
@@ -36,7 +36,7 @@ TYield(e) ==
      \/ PYield(e.n)
      \/ (e.n = cfg.skip /\ PYieldTail)
   /\ e.alen = e.n * C
-  /\ e.vals = Slice(V, blk'.a * C, (blk'.a + e.n) * C)
+  /\ (IF H.novals THEN TRUE ELSE e.vals = Slice(V, blk'.a * C, (blk'.a + e.n) * C))      \* novals: skeleton traces of the repository's own tests
 
 TDone == PDone
 
